@@ -202,7 +202,9 @@ async fn run_hist(rest: &str) -> String {
             }
             "stop" | "kill" => {
                 let a: u64 = w[1].parse().unwrap();
-                let c = slots[&a].cell.lock().unwrap().clone().expect("cell");
+                // (no cell = the spawn failed although the scenario expected it to succeed: the
+                // divergence is already in the history; ignore operations on that actor)
+                let Some(c) = slots[&a].cell.lock().unwrap().clone() else { continue };
                 hist.lock().unwrap().push(format!("EBegin {a}"));
                 if w[0] == "stop" {
                     c.stop(None);
@@ -216,7 +218,7 @@ async fn run_hist(rest: &str) -> String {
             }
             "wait" => {
                 let a: u64 = w[1].parse().unwrap();
-                let c = slots[&a].cell.lock().unwrap().clone().expect("cell");
+                let Some(c) = slots[&a].cell.lock().unwrap().clone() else { continue };
                 let h2 = hist.clone();
                 tasks.push(tokio::spawn(async move {
                     let _ = c.wait(None).await;
@@ -237,7 +239,7 @@ async fn run_hist(rest: &str) -> String {
             }
             "whp" => {
                 let a: u64 = w[1].parse().unwrap();
-                let c = slots[&a].cell.lock().unwrap().clone().expect("cell");
+                let Some(c) = slots[&a].cell.lock().unwrap().clone() else { continue };
                 let t = match registry::where_is_pid(c.get_id()) {
                     None => "None".to_string(),
                     Some(c2) => format!("(Some {})", cls(c2.get_status())),
